@@ -225,6 +225,109 @@ pub fn families() -> Vec<Box<dyn Family>> {
             },
         ),
         family(
+            "oplists_adjacent_changes",
+            "valid op lists that are NOT alternating: a change may be followed directly by another change (what a bare Capture records for a substitution: Insert next to Delete; any order and kind) x every n of the radius list x {group_diff_ops, Capture::into_grouped_ops}: changes separated by ZERO equal items belong to one group; and the raw calls of a real diff (algorithms::diff into a bare Capture) grouped with into_grouped_ops",
+            false,
+            64,
+            |cfg| cfg.n(30_000, 600_000),
+            |idx, cfg, out| {
+                let mut rng = Rng::for_case(cfg.seed, "c12.oplists_adjacent", idx);
+                let ops = if idx % 4 == 3 {
+                    let (a, b) = gen::rand_pair(&mut rng, if cfg.tiny { 6 } else { 30 });
+                    let alg = ALGS[rng.below(3)];
+                    let mut c = Capture::new();
+                    match guard(|| {
+                        similar::algorithms::diff(alg, &mut c, &a[..], 0..a.len(), &b[..], 0..b.len()).unwrap();
+                        c.into_ops()
+                    }) {
+                        Ok(ops) => {
+                            // adjacent Equal calls are merged into one run (the property speaks about equal RUNS;
+                            // grouping works per op), adjacent changes stay as the algorithm reported them
+                            let mut merged: Vec<DiffOp> = Vec::new();
+                            for op in ops {
+                                if let (Some(DiffOp::Equal { len: l0, .. }), DiffOp::Equal { len, .. }) = (merged.last_mut(), op) {
+                                    *l0 += len;
+                                } else {
+                                    merged.push(op);
+                                }
+                            }
+                            merged
+                        }
+                        Err(_) => return, // owned by C01
+                    }
+                } else {
+                    gen::rand_oplist_with(&mut rng, true)
+                };
+                out.sample(|| format!("ops={} x 14 radii", fmt_ops(&ops)));
+                if ops.windows(2).any(|w| w[0].tag() != DiffTag::Equal && w[1].tag() != DiffTag::Equal) {
+                    out.nontrivial(&ops);
+                    out.count("lists_with_adjacent_changes");
+                }
+                for n in NS {
+                    out.eval();
+                    let o2 = ops.clone();
+                    check_grouping("group_diff_ops", &ops, n, guard(move || group_diff_ops(o2, n)), out);
+                    if idx % 2 == 0 {
+                        out.eval();
+                        let o3 = ops.clone();
+                        let r = guard(move || {
+                            let mut c = Capture::new();
+                            for op in &o3 {
+                                op.apply_to_hook(&mut c).unwrap();
+                            }
+                            c.finish().unwrap();
+                            c.into_grouped_ops(n)
+                        });
+                        check_grouping("Capture::into_grouped_ops", &ops, n, r, out);
+                    }
+                }
+            },
+        ),
+        family(
+            "textdiff_small_exh",
+            "EVERY radius against every small text: all ordered pairs of token sequences over {0,1,2} with length <= 4 x 3 algorithms x n in 0..=6: TextDiff::grouped_ops(n) and UnifiedDiff::context_radius(n).iter_hunks() must equal the reference grouping of the diff's ops (radii exactly at / next to the lengths of the texts and of their common parts)",
+            true,
+            16,
+            |cfg| {
+                let n = gen::all_seqs(3, if cfg.tiny { 2 } else { 4 }).len() as u64;
+                n * n
+            },
+            |idx, cfg, out| {
+                let seqs = gen::all_seqs(3, if cfg.tiny { 2 } else { 4 });
+                let (a, b) = gen::pair_of(seqs, idx);
+                let sa: Vec<String> = a.iter().map(|x| format!("l{}\n", x)).collect();
+                let sb: Vec<String> = b.iter().map(|x| format!("l{}\n", x)).collect();
+                let ra: Vec<&str> = sa.iter().map(|s| s.as_str()).collect();
+                let rb: Vec<&str> = sb.iter().map(|s| s.as_str()).collect();
+                out.sample(|| format!("old={:?} new={:?} x algorithms x radii 0..=6", a, b));
+                for alg in ALGS {
+                    for n in 0..=6usize {
+                        out.eval();
+                        let r = guard(|| {
+                            let d = TextDiff::configure().algorithm(alg).diff_slices(&ra, &rb);
+                            let hunks: Vec<Vec<DiffOp>> = d.unified_diff().context_radius(n).iter_hunks().map(|h| h.ops().to_vec()).collect();
+                            (d.ops().to_vec(), d.grouped_ops(n), hunks)
+                        });
+                        match r {
+                            Err(p) => out.violation("panic", format!("TextDiff::grouped_ops panicked: {} | old={:?} new={:?}", p, a, b)),
+                            Ok((ops, groups, hunks)) => {
+                                let expect = reference_groups(&ops, n);
+                                if strip_empty_equal(&groups) != expect {
+                                    out.violation("group.differs_from_reference", format!("TextDiff::grouped_ops({}) alg={} old={:?} new={:?} ops={} | got {} | reference {}", n, alg_name(alg), a, b, fmt_ops(&ops), fmt_groups(&groups), fmt_groups(&expect)));
+                                }
+                                if strip_empty_equal(&hunks) != expect {
+                                    out.violation("group.hunks_differ_from_reference", format!("context_radius({}).iter_hunks() alg={} old={:?} new={:?} ops={} | hunks {} | reference {}", n, alg_name(alg), a, b, fmt_ops(&ops), fmt_groups(&hunks), fmt_groups(&expect)));
+                                }
+                                if groups.len() > 1 {
+                                    out.nontrivial(&(a, b, n));
+                                }
+                            }
+                        }
+                    }
+                }
+            },
+        ),
+        family(
             "huge_runs",
             "hand-built valid op lists whose EQUAL RUNS are astronomically long (usize::MAX/2 - 1, MAX/2, MAX/2 + 1, MAX/2 + 7, 3 * 2^62, 2^32 + 1 next to runs of 1, 2, 5; the lengths of one list sum to less than usize::MAX) with 1..3 changes at every position relative to the long run x EVERY n of the radius list (0..13, 100, MAX/2, MAX/2+1, MAX-1, MAX): radius and run length are both beyond MAX/2 in many combinations",
             true,
